@@ -16,7 +16,7 @@ import numpy as np
 from harness import core, learners as L, xlearner as X
 
 MODULES = ["AdaptiveProofs.Props.C10"]
-KINDS = ["l1d", "l1d_curv", "l1d_vec", "l1d_tri", "l1d_uni", "lnd2", "lnd3", "avg", "avg1d", "seq", "integ",
+KINDS = ["l1d", "l1d_curv", "l1d_vec", "l1d_tri", "l1d_uni", "lnd2", "lnd3", "l2d", "avg", "avg1d", "seq", "integ",
          "bal:l1d", "bal:seq", "bal:avg", "bal:cycle:l1d", "bal:loss:l1d", "ds:l1d", "ds:seq", "ds:avg", "ds:lnd2"]
 
 
@@ -215,7 +215,7 @@ def run(ctx):
                     "re-tells must leave every observable unchanged; after remove_unfinished the pending set is empty and both "
                     "losses coincide (not for the integrator, for which discarding is a no-op by design).",
         trusted=core.COMMON_TRUSTED,
-        assumptions=["Learner2D is not exercised (cannot get past its corner points in this environment)",
+        assumptions=["Learner2D is exercised since its NumPy 2 / SciPy 1.15 breakage was repaired (fix: commits)",
                      "AverageLearner1D: data holds the running mean per abscissa, so only keys, counts and pending bookkeeping are compared"],
         extra={"kinds": dist, "ops": stats, "histories_aborted_by_exception": aborted},
         partial=["LearnerND / IntegratorLearner / AverageLearner1D have no Lean model of this bookkeeping here: shadow oracle only"],
